@@ -560,6 +560,40 @@ func (m *Machine) fresh(prefix string, w int) *Term {
 	return t
 }
 
+// Assume constrains the path to c without exploring ¬c (an assumption is not a fork). The path is
+// discarded when c is infeasible.
+func (m *Machine) Assume(c *Term) {
+	if c.IsConst() {
+		if c.Val == 0 {
+			m.abort("assume-false", "")
+		}
+		return
+	}
+	if v, ok := m.knownAtom(c); ok {
+		if !v {
+			m.abort("assume-false", "")
+		}
+		return
+	}
+	if r := m.rngBool(c); r >= 0 {
+		if r == 0 {
+			m.abort("assume-false", "")
+		}
+		return
+	}
+	if m.pos < len(m.tape) {
+		// replaying a feasible prefix: the assumption held
+		m.assertPC(c)
+		return
+	}
+	if !(m.modelOK && Eval(c, m.model) != 0) {
+		if m.query(c, true) != Sat {
+			m.abort("assume-false", "")
+		}
+	}
+	m.assertPC(c)
+}
+
 // Check is the harness's property assertion.
 func (m *Machine) Check(c *Term, what string) {
 	if c.IsConst() {
